@@ -17,6 +17,20 @@ from .simnet import AsyncSimBackend, FakeSSLContext, SimNet, World
 from .vloop import VLoop, patch_httpcore_clock
 
 
+def mk_url(url):
+    """A call's URL is text, or a dict of COMPONENTS (scheme/host/port/target, host as bytes or as a list of
+    byte values) handed to httpcore.URL(**components): the only way to name a host that is not ASCII."""
+    if isinstance(url, dict):
+        d = dict(url)
+        for k in ("scheme", "host", "target"):
+            if isinstance(d.get(k), (list, tuple)):
+                d[k] = bytes(d[k])
+            elif isinstance(d.get(k), str):
+                d[k] = d[k].encode("latin1")
+        return httpcore.URL(**d)
+    return url
+
+
 class Call:
     def __init__(
         self,
@@ -267,7 +281,8 @@ class AsyncRun:
                 ext = dict(call.extensions)
                 if call.timeout is not None:
                     ext["timeout"] = dict(call.timeout)
-                headers = [(b"Host", httpcore.URL(call.url).host), (b"X-Tok", call.tok.encode())] + [
+                url = mk_url(call.url)
+                headers = [(b"Host", httpcore.URL(url).host if isinstance(url, str) else url.host), (b"X-Tok", call.tok.encode())] + [
                     (k, v) for k, v in call.headers
                 ]
                 content = call.content
@@ -297,9 +312,13 @@ class AsyncRun:
                             yield p
 
                     content = agen()
-                req = httpcore.Request(call.method, call.url, headers=headers, content=content, extensions=ext)
+                req = httpcore.Request(call.method, url, headers=headers, content=content, extensions=ext)
                 self.phase[name] = "calling"
                 self.event("Call", r=name)
+                if not isinstance(url, str) and any(b > 0x7F for b in bytes(url.host)):
+                    # a host that no network back end can be given (it is not ASCII): the ENVIRONMENT's refusal of
+                    # this call's connection attempt, known from the stimulus alone (Pool.tla ConnectFail)
+                    self.event("Fault", r=name, op=-1, kind="connect_tcp", fault="UnconnectableHost")
                 resp = await self.pool.handle_async_request(req)
                 self.phase[name] = "holding"
                 out["status"] = resp.status
